@@ -19,6 +19,7 @@ fn tame_huge(mut case: Case) -> Case {
         match e {
             Entries::Literal(v) => v.iter().any(|(k, v)| k.0.len() >= (1 << 20) || v.0.len() >= (1 << 20)),
             Entries::Counter { .. } => false,
+            Entries::Noise { vlen, .. } => *vlen >= (1 << 20),
         }
     }
     let h = match &case {
@@ -89,11 +90,28 @@ pub fn gen_case_indexed(prop: &str, rng: &mut Rng, tier: Tier, run: u64) -> Case
 
 fn gen_case_indexed_raw(prop: &str, rng: &mut Rng, tier: Tier, run: u64) -> Case {
     if prop == "C08" {
-        let reserved = if tier == Tier::Quick { 2 } else { 8 };
+        let reserved = if tier == Tier::Quick { 3 } else { 12 };
         if run < reserved {
             let mut c = crate::props_sort::gen_c08_with(rng, tier, true);
             use crate::case::Entries;
-            if run % 2 == 1 {
+            if run % 3 == 2 {
+                // no reallocation, a budget that is not a multiple of anything, and m equal entries
+                // (5 <= m <= 200, each <= budget/4) whose sizes add up to just above the budget
+                // (budget+1 ..= budget+m): a buffer that is only a few dozen bytes larger than the budget
+                // — rounding to a page, to a cache line, a forgotten bookkeeping slot — takes all m
+                // of them before it spills, the stated bound allows m-1
+                if let Case::Sort(s) = &mut c {
+                    s.knobs.allow_realloc = false;
+                    let b = *rng.pick(&[10 * 1024 * 1024 + 1usize, 12_345_678, 15_000_000, 11_000_001, 10_485_777, 13_371_337]);
+                    s.knobs.threshold_req = Some(b);
+                    let m = rng.log_uniform(5, 200);
+                    let per = (b as u64 + 1 + m - 1) / m;
+                    let cycles = rng.range(3, 6);
+                    s.inserts = Entries::Counter { n: m * cycles + rng.range(0, m), width: 8, start: 1, stride: 7919, vlen: (per - 8) as u32 };
+                }
+                return c;
+            }
+            if run % 3 == 1 {
                 // odd indices: preallocated buffer (no reallocation) with a budget that is not a multiple
                 // of any large power of two
                 if let Case::Sort(s) = &mut c {
@@ -128,6 +146,40 @@ fn gen_case_indexed_raw(prop: &str, rng: &mut Rng, tier: Tier, run: u64) -> Case
             out_knobs: Knobs::default_knobs(),
             env: crate::env::EnvPlan::whole(),
         });
+    }
+    if (prop == "C12" || prop == "C11") && run < if tier == Tier::Quick { 1 } else { 3 } {
+        // blocks beyond the sizes of typical staging buffers: two entries of 17-24 MiB of incompressible
+        // bytes, so that every codec's block stays above 16 MiB; read through a cursor (C12: every
+        // seek/read of the source fails once; C11: the reads are split and interrupted)
+        use crate::case::*;
+        let vlen = rng.range(17 << 20, 24 << 20) as u32;
+        let _ = rng.below(5);
+        // lz4 first (its frame decoder reads from the source as it goes), then zstd, snappy
+        let codec = [3u8, 4, 5, 1][run as usize % 4];
+        let spec = FileSpec {
+            knobs: Knobs { codec, level: 1, block_size: *rng.pick(&[None, Some(1024)]), interval: None, levels: *rng.pick(&[0u8, 1, 2]), ctor: 0, fin: 0 },
+            entries: Entries::Noise { n: 2, width: 4, start: 7, stride: 5, vlen, seed: rng.next_u64() },
+        };
+        let k = |x: u32| B(x.to_be_bytes().to_vec());
+        let mut steps = vec![
+            CursorStep { cur: 0, op: Op::First },
+            CursorStep { cur: 0, op: Op::Next },
+            CursorStep { cur: 0, op: Op::Next },
+            CursorStep { cur: 0, op: Op::Last },
+            CursorStep { cur: 0, op: Op::Prev },
+            CursorStep { cur: 0, op: Op::Ge(k(8)) },
+            CursorStep { cur: 0, op: Op::Le(k(11)) },
+            CursorStep { cur: 0, op: Op::Eq(k(7)) },
+        ];
+        let mut spec = spec;
+        if prop == "C12" {
+            // every component call of the scenario is failed in turn (twice): one entry, one move
+            if let Entries::Noise { n, .. } = &mut spec.entries {
+                *n = 1;
+            }
+            steps.truncate(1);
+        }
+        return Case::Cursor(CursorCase { spec, env: crate::env::EnvPlan::whole(), steps, fresh_each: false, v1: false, sparse_hole: None });
     }
     if (prop == "C09" || prop == "C02") && run < if tier == Tier::Quick { 3 } else { 9 } {
         // a file whose blocks and index lie beyond 4 GiB (sparse sink: filler bodies are holes)
